@@ -354,8 +354,8 @@ def execute(case, ctx):
                         ctx.fail("reproducible", f"{PROP}:not_reproducible:rejection_without_evidence", {"size": min(size, 400), "seed": seed})
                     check_frame(a, expect_cols(inc), min(size, 400), "rejection_noev")
                     continue
-                if k == "law_rejection":
-                    inc = True
+                if k == "law_rejection" and op["seed"] % 2:
+                    inc = True  # otherwise the law is checked on the visible columns only (evidence may sit on a hidden latent)
                 ctx.fault("rare_evidence") if ref.prob_evidence(ev) < 0.1 else None
                 a, b = twice(lambda: sampler().rejection_sample(evidence=evl, size=size, include_latents=inc, seed=seed, show_progress=False))
                 ctx.checked += 1
@@ -395,10 +395,26 @@ def execute(case, ctx):
                     continue
                 size = min(size, 50)
                 g = GibbsSampling(model)
-                a = g.sample(size=size, seed=seed, include_latents=inc)
+                skw = {}
+                start = None
+                if op["seed"] % 3 == 0:
+                    # an explicit start state, the caller's list object serving both chains
+                    rs = random.Random(op["perturb"][0])
+                    start = [State(L(v), rs.randrange(card[v])) for v in [names.lab2idx[x] for x in g.variables.tolist()]]
+                    start_before = [(repr(x.var), int(x.state)) for x in start]
+                    skw["start_state"] = start
+                    ctx.probe("gibbs_explicit_start_state")
+                a = g.sample(size=size, seed=seed, include_latents=inc, **skw)
                 seams.rng_perturb(random.Random(op["perturb"][1]), ctx)
                 g2 = GibbsSampling(model)
-                b = g2.sample(size=size, seed=seed, include_latents=inc)
+                b = g2.sample(size=size, seed=seed, include_latents=inc, **skw)
+                if start is not None:
+                    if [(repr(x.var), int(x.state)) for x in start] != start_before:
+                        ctx.fail("reproducible", f"{PROP}:gibbs_start_state_argument_changed", {"before": start_before, "after": [(repr(x.var), int(x.state)) for x in start]})
+                    first = {c: int(a[c].iloc[0]) for c in a.columns}
+                    want_first = {str(x.var): int(x.state) for x in start if str(x.var) in first}
+                    if first != want_first:
+                        ctx.fail("reproducible", f"{PROP}:gibbs_first_row_is_not_the_start_state", {"got": first, "want": want_first})
                 ctx.checked += 1
                 if not a.equals(b):
                     ctx.fail("reproducible", f"{PROP}:not_reproducible:gibbs", {"size": size, "seed": seed})
@@ -550,7 +566,7 @@ def _law(ctx, world, rows, ev, what, ref=None):
         m = len(rows)
         eps = hoeffding(m)
         for v in range(n):
-            if v in ev:
+            if v in ev or (rows and v not in rows[0]):
                 continue
             post = ref.posterior([v], ev)
             for s in range(card[v]):
